@@ -385,7 +385,12 @@ def _run_one(o, mod, dem, ll, wd, tier, seed, R, log, irsym):
     # ---- counterexamples: replay natively before reporting
     R["cex"] = []
     confirmed = []
-    for c in res.cex[:12]:
+    seen_cex = set()
+    for c in res.cex[:60]:
+        kk = (c['label'], json.dumps(c['inputs'], default=str))
+        if kk in seen_cex:
+            continue
+        seen_cex.add(kk)
         vec = [(d["name"], (float(Fraction(d["exact"])) if d.get("exact") else d["value"])) for d in c["inputs"]
                if d["value"] is not None]
         nat = run_native(exe, vec, wd, "cex")
